@@ -18,3 +18,7 @@ check("C11", "exploration",
       "Differential runtime monitoring of findall/bagof/setof over seeded fact tables with variant/non-variant witnesses, arbitrary templates, ^-quantification, nested all-solutions calls, throwing goals and bound/partial/non-list instance arguments; answers compared with the reference interpreter (sequence for findall, multiset where group order is open).",
       "Trusts the reference implementation of ISO 8.10 (self-tested); group order and results hinging on the order of unbound variables are not asserted.",
       "differential testing against an executable reference interpreter (answer multiset/sequence oracle)", "§3 C11")
+check("C17", "exploration",
+      "Differential runtime monitoring of DCG translation: seeded random non-left-recursive grammars using every body construct (terminals, strings, non-terminals with arguments, sequence incl. left-nested, ';' '|', {}//1, \\+//1, !//0, call//N, if-then(-else), push-back), loaded through consult and through expand_term/2+assertz, are run on all 31 lists over {a,b} up to length 4 (+ lists with c) in recognition, remainder and generation mode; answer sequences must equal those of the reference interpreter running the ISO-draft translation.",
+      "Trusts the reference translation (2019 draft) and interpreter (self-tested). Cut nested inside a parenthesised alternation that is an element of a sequence is not generated (C03's scope).",
+      "differential testing against an executable reference translation + interpreter, exhaustive over short inputs", "§3 C17")
